@@ -519,5 +519,52 @@ theorem denL_simplifyCast_frac (S : LeafSem card leaf) {n d e : Expr} (hn : Good
     denL card leaf e σ = denL card leaf n σ / denL card leaf d σ :=
   denL_fracSimplify S hn hd h σ
 
+/-- `Sum.safe(P[pop](c), rs, simplify=True)` when every range is (the name of) a child: `One()` or the joint of the
+remaining children -/
+theorem sumSafe_joint_sub (pop : Option Var) (c rs : List Var) (hplain : ∀ v ∈ rs, PlainReg v)
+    (hsub : ∀ v ∈ rs, v.name ∈ c.map (·.name)) :
+    sumSafe (.prob pop c []) rs true = .one ∨
+    ∃ c', sumSafe (.prob pop c []) rs true = .prob pop c' [] ∧ (∀ v ∈ c', v ∈ c) ∧
+      (∀ n, n ∈ c'.map (·.name) ↔ n ∈ c.map (·.name) ∧ n ∉ rs.map (·.name)) := by
+  have _ := hplain
+  have hrsn : ∀ n, n ∈ (sortVars rs).map (·.name) ↔ n ∈ rs.map (·.name) := by intro n; simp
+  have hkeys : ∀ n, n ∈ (childDict c).map (·.1) ↔ n ∈ c.map (·.name) := by
+    intro n; rw [TrsoAux.mem_childDict_keys]; simp
+  unfold sumSafe
+  simp only []
+  split
+  · rename_i hemp
+    have h0 : sortVars rs = [] := by simpa using hemp
+    have : rs = [] := by
+      by_contra hne; exact sortVars_nonempty hne h0
+    subst this
+    exact Or.inr ⟨c, rfl, fun _ h => h, by simp⟩
+  · have hs : subset' ((sortVars rs).map (·.name)) ((childDict c).map (·.1)) = true := by
+      rw [TrsoAux.subset'_iff]
+      intro n hn
+      rw [hkeys]
+      rw [hrsn] at hn
+      obtain ⟨v, hv, rfl⟩ := List.mem_map.1 hn
+      exact hsub v hv
+    simp only [isZero, Bool.false_eq_true, if_false, if_true]
+    unfold sumSimplify
+    simp only []
+    split
+    · exact Or.inl rfl
+    · rename_i hse
+      have hks : ¬ subset' ((childDict c).map (·.1)) ((sortVars rs).map (·.name)) = true := by
+        intro h; exact hse (by simp [seteq', hs, h])
+      rw [if_neg hks]
+      try rw [if_pos hs]
+      refine Or.inr ⟨_, rfl, ?_, ?_⟩
+      · intro v hv
+        simp only [mem_sortVars, List.mem_map, List.mem_filter] at hv
+        rcases hv with ⟨p, ⟨hp, _⟩, rfl⟩
+        exact childDict_val_mem c p hp
+      · intro n
+        refine (TrsoAux.mem_kept_names c (fun p => decide (p.1 ∉ (sortVars rs).map (·.name)))
+          (fun n => n ∉ (sortVars rs).map (·.name)) (by intro p; simp) n).trans ?_
+        rw [hkeys, hrsn]
+
 end Trso
 end Y0
